@@ -56,6 +56,25 @@ mutual
       rw [editAt_editAt s g1 g2 k, editAt_editAt_list s g1 g2 ks]
 end
 
+/-! ### The identity edit -/
+
+mutual
+  theorem editAt_id (s : Nat) : ∀ t : HTree, HTree.editAt s id t = t
+    | .node h v ks => by
+      rw [editAt_node]
+      by_cases hh : h = s
+      · rw [if_pos hh]; rfl
+      · rw [if_neg hh, editAt_id_list s ks]
+  theorem editAt_id_list (s : Nat) : ∀ ks : List HTree, ks.map (HTree.editAt s id) = ks
+    | [] => rfl
+    | k :: ks => by rw [List.map_cons, editAt_id s k, editAt_id_list s ks]
+end
+
+theorem Forest.editAt_id (f : Forest) (s : Option Nat) : f.editAt s id = f := by
+  cases s with
+  | none => rfl
+  | some p => simp only [Forest.editAt]; rw [editAt_id_list]
+
 /-! ### Commutation at two sites -/
 
 /-- `g` commutes with applying `φ` to every child. -/
